@@ -275,10 +275,19 @@ func parent(a []string) int {
 	// The same engine once more, in the failpoint build, while the scheduler of internal/fp holds windows inside the
 	// library open. Its violations are violations like any other (a delay is something a loaded machine does too); its
 	// counters are reported under "fp_".
-	if fpBin := os.Getenv("VCHECK_FP_BIN"); e.FP && fpBin != "" && replay == "" && os.Getenv("VERIF_NO_FP") == "" {
-		fpDir := filepath.Join(workdir, "fp")
+	fpSeeds := []int64{seed}
+	if tier == "thorough" {
+		// the thorough tier runs the failpoint pass under three seeds (workload and delay schedule both depend on it)
+		fpSeeds = []int64{seed, seed + 1000, seed + 2000}
+	}
+	fpBin := os.Getenv("VCHECK_FP_BIN")
+	for fpi, fpSeed := range fpSeeds {
+		if !(e.FP && fpBin != "" && replay == "" && os.Getenv("VERIF_NO_FP") == "") {
+			break
+		}
+		fpDir := filepath.Join(workdir, fmt.Sprintf("fp%d", fpi))
 		os.MkdirAll(fpDir, 0755)
-		fargs := []string{"-s", "QUIT", "-k", "20", strconv.Itoa(int(to.Seconds())), fpBin, "--child", id, tier, strconv.FormatInt(seed, 10), fpDir}
+		fargs := []string{"-s", "QUIT", "-k", "20", strconv.Itoa(int(to.Seconds())), fpBin, "--child", id, tier, strconv.FormatInt(fpSeed, 10), fpDir}
 		fcmd := exec.Command("timeout", fargs...)
 		flog, _ := os.Create(filepath.Join(fpDir, "child.log"))
 		fcmd.Stdout, fcmd.Stderr = flog, flog
@@ -314,14 +323,21 @@ func parent(a []string) int {
 				res.Inconclusive = append(res.Inconclusive, "[failpoint pass] "+s)
 			}
 			res.InconclusiveN += fres.InconclusiveN
-			res.Counters["fp_evaluations"] = fres.Evaluations
-			res.Counters["fp_distinct_nontrivial"] = fres.Nontrivial
-			res.Counters["fp_wall_ms"] = int64(time.Since(fstart).Milliseconds())
+			res.Counters["fp_passes"]++
+			res.Counters["fp_evaluations"] += fres.Evaluations
+			res.Counters["fp_distinct_nontrivial"] += fres.Nontrivial
+			res.Counters["fp_wall_ms"] += int64(time.Since(fstart).Milliseconds())
 			for k, v := range fres.Counters {
-				res.Counters["fp_"+k] = v
+				if k == "sites" || strings.HasPrefix(k, "max_") || strings.HasPrefix(k, "exhaustive") {
+					res.Counters["fp_"+k] = v
+				} else {
+					res.Counters["fp_"+k] += v
+				}
 			}
 			for k, v := range fres.DistinctN {
-				res.DistinctN["fp_"+k] = v
+				if v > res.DistinctN["fp_"+k] {
+					res.DistinctN["fp_"+k] = v // per pass; the largest is reported
+				}
 			}
 			if ex := fres.DistinctEx["site_hit"]; len(ex) > 0 {
 				if res.DistinctEx == nil {
@@ -337,7 +353,8 @@ func parent(a []string) int {
 				return 3
 			}
 		}
-	} else if e.FP && replay == "" && os.Getenv("VERIF_NO_FP") == "" {
+	}
+	if e.FP && fpBin == "" && replay == "" && os.Getenv("VERIF_NO_FP") == "" {
 		res.Notes = append(res.Notes, "no failpoint build was available (VCHECK_FP_BIN unset): the failpoint pass did not run")
 		fmt.Printf("NOTE property=%s the failpoint pass did not run (no failpoint build)\n", id)
 	}
